@@ -112,11 +112,17 @@ struct Pass {
   unsigned char *new_block(size_t n) {
     // exact-size block at an environment-dependent address, pre-filled with the environment's pattern
     for (int i = 0; i < env.spacer; i++) { void *x = malloc(64 + 48 * (size_t)i); free(x); }
-    unsigned char *p = (unsigned char *)malloc(n ? n : 1);
+    // ... and at an address phase that changes from block to block in the second environment: every other block starts 8 bytes
+    // into a 16-byte line (8 is all the alignment the library may assume of caller-provided memory), so a layout computed from
+    // the absolute address is different in a memcpy clone (seeded change C12-f2)
+    size_t phase = env.nbyst > 0 && (blocks_made++ & 1) ? 8 : 0;
+    unsigned char *base = (unsigned char *)malloc((n ? n : 1) + phase), *p = base + phase;
     if (env.fill < 256) memset(p, env.fill, n); else { uint64_t x = env.seed; for (size_t i = 0; i < n; i++) p[i] = (unsigned char)(splitmix64(x) >> 17); }
+    bases[p] = base;
     return p;
   }
-  void free_block(Twin &t) { if (t.mem) { memset(t.mem, 0xDD, t.size); free(t.mem); t.mem = nullptr; } }
+  void free_block(Twin &t) { if (t.mem) { memset(t.mem, 0xDD, t.size); auto it = bases.find(t.mem); free(it != bases.end() ? it->second : t.mem); if (it != bases.end()) bases.erase(it); t.mem = nullptr; } }
+  std::map<unsigned char *, unsigned char *> bases; unsigned blocks_made = 0;
   void L(uint64_t x) { log.push_back(x); }
 
   void bystanders() {
